@@ -64,30 +64,51 @@ struct Env {
   std::function<void(bool isX, size_t idx)> onErase;
   std::function<void(bool isX, size_t dst, size_t src)> onAssign;
 
-  const Manifold& m(int64_t i) const { return M[(size_t)(((i % (int64_t)M.size()) + M.size()) % M.size())]; }
+  // object identities (for taint tracking by the driver)
+  std::vector<uint64_t> idM, idX;
+  uint64_t nextId = 1;
+  mutable std::vector<uint64_t> used;
+
   size_t mi(int64_t i) const { return (size_t)(((i % (int64_t)M.size()) + M.size()) % M.size()); }
-  const CrossSection& x(int64_t i) const { return X[xi(i)]; }
   size_t xi(int64_t i) const { return (size_t)(((i % (int64_t)X.size()) + X.size()) % X.size()); }
+  const Manifold& m(int64_t i) const {
+    used.push_back(idM[mi(i)]);
+    return M[mi(i)];
+  }
+  const CrossSection& x(int64_t i) const {
+    used.push_back(idX[xi(i)]);
+    return X[xi(i)];
+  }
 
   void pushM(Manifold v) {
     M.push_back(std::move(v));
+    idM.push_back(nextId++);
     produced.push_back({false, M.size() - 1});
   }
   void pushX(CrossSection v) {
     X.push_back(std::move(v));
+    idX.push_back(nextId++);
     produced.push_back({true, X.size() - 1});
+  }
+  void eraseM(size_t k) {
+    if (onErase) onErase(false, k);
+    M.erase(M.begin() + k);
+    idM.erase(idM.begin() + k);
+  }
+  void eraseX(size_t k) {
+    if (onErase) onErase(true, k);
+    X.erase(X.begin() + k);
+    idX.erase(idX.begin() + k);
   }
   // Evict after a step (keeps `produced` indices valid during the step).
   void evict(int64_t salt) {
     while (M.size() > capM) {
       size_t k = (size_t)((salt < 0 ? -salt : salt) % (int64_t)M.size());
-      if (onErase) onErase(false, k);
-      M.erase(M.begin() + k);
+      eraseM(k);
     }
     while (X.size() > capX) {
       size_t k = (size_t)((salt < 0 ? -salt : salt) % (int64_t)X.size());
-      if (onErase) onErase(true, k);
-      X.erase(X.begin() + k);
+      eraseX(k);
     }
   }
 };
@@ -157,6 +178,7 @@ inline void set_props(double* n, vec3 p, const double* old, int num, int kind, i
 inline bool exec(Env& e, const Op& op) {
   e.produced.clear();
   e.note.clear();
+  e.used.clear();
   const std::string& n = op.name;
   auto A = [&](size_t i, int64_t d = 0) { return op.arg(i, d); };
   const bool haveM = !e.M.empty(), haveX = !e.X.empty();
@@ -385,22 +407,23 @@ inline bool exec(Env& e, const Op& op) {
     if (needM()) {
       size_t d = e.mi(A(0)), s = e.mi(A(1));
       if (e.onAssign) e.onAssign(false, d, s);
+      e.used.push_back(e.idM[s]);
       e.M[d] = e.M[s];
+      e.idM[d] = e.nextId++;
+      e.produced.push_back({false, d});
       e.note = "assign";
     }
   } else if (n == "moveout") {
     if (needM()) {
       size_t s = e.mi(A(0));
+      e.used.push_back(e.idM[s]);
       Manifold t = std::move(e.M[s]);
-      if (e.onErase) e.onErase(false, s);
-      e.M.erase(e.M.begin() + s);
+      e.eraseM(s);
       e.pushM(std::move(t));
     }
   } else if (n == "drop") {
     if (e.M.size() > 1) {
-      size_t s = e.mi(A(0));
-      if (e.onErase) e.onErase(false, s);
-      e.M.erase(e.M.begin() + s);
+      e.eraseM(e.mi(A(0)));
       e.note = "drop";
     }
   } else if (n == "force") {
@@ -480,7 +503,10 @@ inline bool exec(Env& e, const Op& op) {
     if (needX()) {
       size_t d = e.xi(A(0)), s = e.xi(A(1));
       if (e.onAssign) e.onAssign(true, d, s);
+      e.used.push_back(e.idX[s]);
       e.X[d] = e.X[s];
+      e.idX[d] = e.nextId++;
+      e.produced.push_back({true, d});
       e.note = "assign";
     }
   } else if (n == "xforce") {
